@@ -147,6 +147,79 @@ def register(op):
                 return f"use {k} ({u}): table -> sequence -> table gives {r!r} for {ref!r}"
         return None
 
+    @op("strand_table_owned_fault")
+    def _(a):
+        """direct statement [form, seq, break, edits]: the table make_strand_table hands out is the caller's own.  The
+        sequence (form 'str': the elements joined to one string, 'list': the list of elements) is converted, the caller
+        edits the table it got in place (edits = [kind, position] on a strand or on the table), and an EQUAL sequence
+        (built again, not the same object) is converted again: both conversions must be the sequence cut at every
+        element equal to the break marker (empty strands kept for strings, dropped for lists), the second table shares
+        no strand with the first, and a string comes back from strand_table_to_sequence(join=True).
+        None, or a description of the first fault."""
+        form, seq, brk, edits = a
+
+        def given():
+            return "".join(seq) if form == "str" else list(seq)
+        runs, cur = [], []
+        for x in seq:
+            if x == brk:
+                runs.append(cur); cur = []
+            else:
+                cur.append(x)
+        runs.append(cur)
+        want = runs if form == "str" else [r for r in runs if r]
+        shown = f"make_strand_table({given()!r}, strand_break={brk!r})"
+        try:
+            t1 = cu.make_strand_table(given(), strand_break=brk)
+        except Exception as e:
+            return f"{shown} raised {type(e).__name__}"
+        if [list(s) for s in t1] != want:
+            return f"{shown} = {t1!r}, the sequence cut at the break marker is {want!r}"
+        done = []
+        for kind, pos in edits:
+            tgt = t1[pos % len(t1)] if t1 else None
+            if kind in ("append", "reverse", "pop", "clear", "break", "setitem") and tgt is None:
+                continue
+            if kind == "append":
+                tgt.append("N")
+            elif kind == "break":
+                tgt.insert(pos % (len(tgt) + 1), brk)
+            elif kind == "reverse":
+                tgt.reverse()
+            elif kind == "pop":
+                if tgt:
+                    tgt.pop(pos % len(tgt))
+            elif kind == "setitem":
+                if tgt:
+                    tgt[pos % len(tgt)] = "N"
+            elif kind == "clear":
+                tgt.clear()
+            elif kind == "drop":
+                if t1:
+                    t1.pop(pos % len(t1))
+            elif kind == "rotate":
+                if t1:
+                    t1.append(t1.pop(0))
+            elif kind == "new":
+                t1.insert(pos % (len(t1) + 1), ["N"])
+            else:
+                raise ValueError("harness: unknown edit " + repr(kind))
+            done.append(kind)
+        try:
+            t2 = cu.make_strand_table(given(), strand_break=brk)
+        except Exception as e:
+            return f"{shown} raised {type(e).__name__} after the caller edited ({', '.join(done)}) the table of an earlier conversion"
+        if [list(s) for s in t2] != want:
+            return (f"{shown} = {t2!r} after the caller edited ({', '.join(done)}) the table it got from an earlier conversion "
+                    f"of the same sequence; the sequence cut at the break marker is {want!r}")
+        if t2 is t1 or any(x is y for x in t2 for y in t1):
+            return f"two conversions {shown} hand out the same strand object"
+        if form == "str":
+            back = cu.strand_table_to_sequence(t2, strand_break=brk, join=True)
+            if back != given():
+                return f"{given()!r} -> table -> {back!r} after the caller edited ({', '.join(done)}) an earlier table"
+        return None
+
     @op("make_loop_index")
     def _(a):
         li, ext = _stable(lambda: list(_unmodified(cu.make_loop_index, _tup(a))))
